@@ -13,7 +13,7 @@ CHECKS = {
     "C03": dict(tech="TLC trace validation on toy curves: the verifier's verdict is recomputed from the recorded statement, proof and challenges (combined check, unbatched relations with explicit folding), including proofs crafted with the combiner the verifier derived for the unaltered proof (combiner attack)",
                 text="For every verify call recorded on toy7/toy79/toy31723 (honest, bad-witness and tampered proofs) TLC recomputes the specification's verdict, the residuals Tres and Ires of the unbatched relations and the combined residual, and demands verdict equality, mega = Ires + r*Tres and verdict = relations up to the single colliding r; small groups make a mis-weighted or dropped term visible.",
                 note="toy curves only (exact recomputation needs P^2 < 2^31); the library code is curve-generic, so the same monomorphised logic runs on the real curves; challenge scalars taken as derived by the code (hook H3)", ref="5 C03"),
-    "C05": dict(tech="replay of every single verifier-side statement/context deviation on the real code (seven base statements, a 300/1100-row statement with every row deviating in turn, a statement with 300/1100 commitments) + TLC trace validation on toy31723 (StatementBinding invariant over the recorded calls of both roles, exact verdict of the deviating statement)",
+    "C05": dict(tech="replay of every single verifier-side statement/context deviation on the real code (seven base statements, a 300/600-row statement with every row deviating in turn, a statement with 300/600 commitments) + TLC trace validation on toy31723 (StatementBinding invariant over the recorded calls of both roles, exact verdict of the deviating statement)",
                 text="For seven base statements every single deviation of label, application data (before construction, in phase 1, inside a callback), commitments (value, blinding, extra, missing, reordered, transposed), coefficients and constants (appended, prepended, changed in place, spelt as a separate term after / before the satisfying constant), an empty randomized closure on one side only, and the two Pedersen bases is run: rejected on the 256-bit curves; on toy31723 TLC rebuilds both statements from the recorded calls and requires equal transcripts, satisfied verifier constraints and agreeing bases whenever the code accepts.",
                 note="single deviations; ideal verdicts on 256-bit curves; toy luck handled by re-running under fresh seeds", ref="5 C05"),
     "C06": dict(tech="TLC trace validation of traced-Merlin operation logs of both roles against the specification's operation schedule (order-preserving embedding), RoleSync invariant",
